@@ -40,8 +40,8 @@ theorem path_wins (c : Cfg) (fs : FS) (p : String) (hn : c.noDotenv = false)
 its ancestors** — also when dotenv-path is set but missing -/
 theorem then_filename (c : Cfg) (fs : FS) (hn : c.noDotenv = false) (ha : active c = true)
     (hp : ∀ p, pathOf c = some p → fs.pathIsFile p = false) :
-    load c fs = match findFile ((filenameOf c).getD ".env") fs.ancestors 0 with
-      | some l => .loadedFile l ((filenameOf c).getD ".env")
+    load c fs = match findFile ((filenameOf c).getD Generated.defaultDotenvName) fs.ancestors 0 with
+      | some l => .loadedFile l ((filenameOf c).getD Generated.defaultDotenvName)
       | none => if c.setRequired then .errorRequired else .empty := by
   unfold load
   simp only [hn, ha, Bool.false_eq_true, if_false, Bool.not_true]
@@ -49,7 +49,7 @@ theorem then_filename (c : Cfg) (fs : FS) (hn : c.noDotenv = false) (ha : active
   | none => rfl
   | some p =>
     simp only [hp p hpo, Bool.false_eq_true, if_false]
-    cases findFile ((filenameOf c).getD ".env") fs.ancestors 0 <;> rfl
+    cases findFile ((filenameOf c).getD Generated.defaultDotenvName) fs.ancestors 0 <;> rfl
 
 /-- the nearest ancestor holding the file wins -/
 theorem findFile_nearest (name : String) (ds : List (List String)) (i l : Nat)
@@ -79,7 +79,7 @@ theorem findFile_nearest (name : String) (ds : List (List String)) (i l : Nat)
 theorem missing_error_iff_required (c : Cfg) (fs : FS) :
     load c fs = .errorRequired →
       c.setRequired = true ∧ c.noDotenv = false ∧
-        findFile ((filenameOf c).getD ".env") fs.ancestors 0 = none := by
+        findFile ((filenameOf c).getD Generated.defaultDotenvName) fs.ancestors 0 = none := by
   unfold load
   intro h
   by_cases hn : c.noDotenv = true
@@ -88,13 +88,13 @@ theorem missing_error_iff_required (c : Cfg) (fs : FS) :
     by_cases ha : active c = true
     · simp only [ha, Bool.not_true, Bool.false_eq_true, if_false] at h
       have key : ∀ r : Res, r = .errorRequired →
-          r = (match findFile ((filenameOf c).getD ".env") fs.ancestors 0 with
-            | some l => .loadedFile l ((filenameOf c).getD ".env")
+          r = (match findFile ((filenameOf c).getD Generated.defaultDotenvName) fs.ancestors 0 with
+            | some l => .loadedFile l ((filenameOf c).getD Generated.defaultDotenvName)
             | none => if c.setRequired then .errorRequired else .empty) →
-          c.setRequired = true ∧ findFile ((filenameOf c).getD ".env") fs.ancestors 0 = none := by
+          c.setRequired = true ∧ findFile ((filenameOf c).getD Generated.defaultDotenvName) fs.ancestors 0 = none := by
         intro r hr heq
         subst hr
-        cases hf : findFile ((filenameOf c).getD ".env") fs.ancestors 0 with
+        cases hf : findFile ((filenameOf c).getD Generated.defaultDotenvName) fs.ancestors 0 with
         | some l => rw [hf] at heq; cases heq
         | none =>
           rw [hf] at heq
@@ -129,5 +129,8 @@ theorem new_entries_visible (environment : String → Option String) (file : Lis
 /-- non-vacuity: `set dotenv-path` pointing nowhere falls back to `.env` of the parent directory -/
 example : load { setPath := some "missing.env" } ⟨fun _ => false, [["justfile"], [".env", "x"]]⟩ = .loadedFile 1 ".env" := by
   decide
+
+/-- the file searched for when no name is given is `.env` (read from src/load_dotenv.rs on every run) -/
+theorem default_name_is_documented : Generated.defaultDotenvName = ".env" := by decide
 
 end Just.Props.C18
